@@ -151,6 +151,91 @@ func (c *Ctx) ruleEmitterTaint() {
 	if n == 0 {
 		r.Undecided("C04-EMITTER-TAINT", "sites", "no buffer-assembling MarshalJSON found", "")
 	}
+	// the same for byte slices put together with append, anywhere below a MarshalJSON: what is appended is a constant,
+	// the output of the encoder, or bytes that such a function has produced itself
+	seen := map[*types.Func]bool{}
+	var cone []*Fn
+	for _, f := range c.libFns() {
+		if f.Obj.Name() != "MarshalJSON" {
+			continue
+		}
+		for _, g := range c.reachableAcrossLib(f) {
+			if !seen[g.Obj] {
+				seen[g.Obj] = true
+				cone = append(cone, g)
+			}
+		}
+	}
+	appends := 0
+	for _, f := range cone {
+		pk := f.Pkg
+		marshalled := map[types.Object]bool{}
+		ast.Inspect(f.Decl.Body, func(nd ast.Node) bool {
+			if as, ok := nd.(*ast.AssignStmt); ok && len(as.Rhs) == 1 && len(as.Lhs) >= 1 {
+				if call, ok := ast.Unparen(as.Rhs[0]).(*ast.CallExpr); ok {
+					if cal := callee(pk, call); cal != nil && (cal.Name() == "MarshalJSON" || (cal.Pkg() != nil && cal.Pkg().Path() == "encoding/json" && strings.HasPrefix(cal.Name(), "Marshal"))) {
+						if id, ok := as.Lhs[0].(*ast.Ident); ok {
+							marshalled[objOf(pk, id)] = true
+						}
+					}
+				}
+			}
+			return true
+		})
+		ast.Inspect(f.Decl.Body, func(nd ast.Node) bool {
+			call, ok := nd.(*ast.CallExpr)
+			if !ok || len(call.Args) < 2 {
+				return true
+			}
+			id, ok := call.Fun.(*ast.Ident)
+			if !ok || id.Name != "append" {
+				return true
+			}
+			if _, isB := pk.TypesInfo.Uses[id].(*types.Builtin); !isB {
+				return true
+			}
+			sl, ok := pk.TypesInfo.TypeOf(call.Args[0]).Underlying().(*types.Slice)
+			if !ok {
+				return true
+			}
+			if bt, ok := sl.Elem().Underlying().(*types.Basic); !ok || bt.Kind() != types.Byte && bt.Kind() != types.Uint8 {
+				return true
+			}
+			appends++
+			for _, a := range call.Args[1:] {
+				a = ast.Unparen(a)
+				if tv := pk.TypesInfo.Types[a]; tv.Value != nil {
+					continue
+				}
+				if aid, ok := a.(*ast.Ident); ok && marshalled[pk.TypesInfo.Uses[aid]] {
+					continue
+				}
+				// bytes produced by another emitter of the cone: a call result
+				if ac, ok := a.(*ast.CallExpr); ok {
+					if g := callee(pk, ac); g != nil && (seen[g] || g.Name() == "MarshalJSON" || (g.Pkg() != nil && g.Pkg().Path() == "encoding/json")) {
+						continue
+					}
+				}
+				// raw text: a string (s...) or one byte of a string / field
+				t := pk.TypesInfo.TypeOf(a)
+				raw := false
+				if bt, ok := t.Underlying().(*types.Basic); ok && (bt.Info()&types.IsString != 0 || bt.Kind() == types.Byte || bt.Kind() == types.Uint8) {
+					raw = true
+				}
+				if sl2, ok := t.Underlying().(*types.Slice); ok {
+					if bt, ok := sl2.Elem().Underlying().(*types.Basic); ok && (bt.Kind() == types.Byte || bt.Kind() == types.Uint8) {
+						raw = true
+					}
+				}
+				if raw {
+					r.Bad("C04-EMITTER-TAINT", f.Name()+" | append of "+exprString(a), "below a MarshalJSON, text that did not go through the JSON encoder is appended to the bytes of the document ("+exprString(a)+"): a byte that is not valid UTF-8, or any other thing a hand-made escaper forgets, reaches the output - the encoder replaces such bytes, so the two ways of writing disagree and the document may not be valid JSON text", c.pos(call.Pos()))
+				}
+			}
+			return true
+		})
+	}
+	r.Stats["c04_marshal_cone"] = len(cone)
+	r.Stats["c04_byte_appends_in_cone"] = appends
 }
 
 // rulePseudoTotal: every construction of a pseudo schema happens where the notation is known to be any/empty.
